@@ -144,6 +144,28 @@ def twins(tier, seed):
             posf = enum_field("x", [(0, 1)], e)
             neg = dict(posf, ranges=[(0, 0)], form="bit", width=1, tywidth=2)
             add(_case("x", N, [posf], helpers=[e]), _case("x", N, [neg], helpers=[e]), "type-width-mismatch", "enum field over one bit too few, %s" % bc, "enum")
+            # the same mismatches on fields without a getter (nothing reads the value back through the custom type)
+            for acc in ("w", ""):
+                if N >= 3:
+                    posf = enum_field("x", [(0, 1)], e, access=acc)
+                    neg = dict(posf, ranges=[(0, 2)], width=3, tywidth=2)
+                    add(_case("x", N, [posf], helpers=[e]), _case("x", N, [neg], helpers=[e]), "type-width-mismatch", "enum field over one bit too many, access '%s', %s" % (acc or "none", bc), "enum")
+                posf = enum_field("x", [(0, 1)], e, access=acc)
+                neg = dict(posf, ranges=[(0, 0)], form="bit", width=1, tywidth=2)
+                add(_case("x", N, [posf], helpers=[e]), _case("x", N, [neg], helpers=[e]), "type-width-mismatch", "enum field over one bit too few, access '%s', %s" % (acc or "none", bc), "enum")
+            if N >= 8:
+                inner = nested_def("In", 3)
+                en16 = std_enum("En", 8, False)
+                for acc in ("w", "rw"):
+                    posf = nested_field("x", [(2, 4)], inner, access=acc)
+                    neg = dict(posf, ranges=[(2, 3)], width=2, tywidth=3)
+                    add(_case("x", N, [posf], helpers=[inner]), _case("x", N, [neg], helpers=[inner]), "type-width-mismatch", "nested bitfield over one bit too few, access '%s', %s" % (acc, bc), "nested")
+                    posf = nested_field("x", [(0, 2)], inner, access=acc, array=arr(2, 4))
+                    neg = dict(posf, ranges=[(0, 1)], width=2, tywidth=3)
+                    add(_case("x", N, [posf], helpers=[inner]), _case("x", N, [neg], helpers=[inner]), "type-width-mismatch", "nested bitfield array element one bit too narrow, access '%s', %s" % (acc, bc), "nested")
+                    posf = enum_field("x", [(0, 7)], en16, access=acc)
+                    neg = dict(posf, ranges=[(0, 3)], width=4, tywidth=8)
+                    add(_case("x", N, [posf], helpers=[en16]), _case("x", N, [neg], helpers=[en16]), "type-width-mismatch", "8-bit enum in a 4-bit field, access '%s', %s" % (acc, bc), "optenum")
         # --- array count / stride rules ---
         if N >= 8:
             pos = uint_field("x", [(0, 3)], array=arr(2, None, 4))
